@@ -432,8 +432,14 @@ Section ShowerShift.
     rewrite (arz_RAC_whole_shift _ _ _ _ _ _ _ _ Hz Hns).
     rewrite !ss_n_shift_total_def, Hns.
     set (t0' := t0 + IZR m * (second_time times - first_time times)).
-    rewrite !(ss_n_Q_t0_free _ _ _ _ _ _ t0' t0), !(ss_n_Q_negative_t0_free _ _ _ _ _ _ t0' t0),
-            !(ss_dz_t0_free _ _ _ _ _ _ t0' t0), !(ss_z_to_t_t0_free _ _ _ _ _ _ t0' t0).
+    change (ARZ_ss_n_Q (first_time times) (second_time times) (ZL times) E th n t0')
+      with (ARZ_ss_n_Q (first_time times) (second_time times) (ZL times) E th n t0).
+    change (ARZ_ss_n_Q_negative (first_time times) (second_time times) (ZL times) E th n t0')
+      with (ARZ_ss_n_Q_negative (first_time times) (second_time times) (ZL times) E th n t0).
+    change (ARZ_ss_dz (first_time times) (second_time times) (ZL times) E th n t0')
+      with (ARZ_ss_dz (first_time times) (second_time times) (ZL times) E th n t0).
+    change (ARZ_ss_z_to_t (first_time times) (second_time times) (ZL times) E th n t0')
+      with (ARZ_ss_z_to_t (first_time times) (second_time times) (ZL times) E th n t0).
     rewrite (ss_A_t0_free _ _ _ _ _ _ t0' t0).
     f_equal. apply rsum_ext. intros q Hq. f_equal. f_equal. lia.
   Qed.
@@ -524,8 +530,3 @@ Section ShowerShift.
   Qed.
 End ShowerShift.
 
-Print Assumptions shower_signal_length.
-Print Assumptions shower_signal_placement.
-Print Assumptions shower_signal_inv_distance.
-Print Assumptions shower_signal_whole_sample_shift.
-Print Assumptions shower_signal_on_cone_whole_sample_shift.
